@@ -116,7 +116,7 @@ func (h *histEnv) apply(e *HEvent) (crashed bool) {
 		if e.D2H {
 			d.EnqueueMemCopyD2H(q, make([]byte, e.N), driver.Ptr(e.Addr))
 		} else {
-			d.EnqueueMemCopyH2D(q, make([]byte, e.N), driver.Ptr(e.Addr))
+			d.EnqueueMemCopyH2D(q, driver.Ptr(e.Addr), make([]byte, e.N))
 		}
 		msgs := h.env.settle()
 		var flushes, copies []sim.Msg
